@@ -107,6 +107,7 @@ theorem Prim.int_lawful : Prim.int.Lawful := ⟨fun a _ => by
 
 theorem Prim.str_lawful : Prim.str.Lawful := ⟨fun _ _ => rfl⟩
 theorem Prim.decRepr_lawful : Prim.decRepr.Lawful := ⟨fun _ _ => rfl⟩
+theorem Prim.decPlain_lawful (P : Params) : (Prim.decPlain P).Lawful := ⟨fun _ _ => rfl⟩
 theorem Prim.dec_lawful (P : Params) : (Prim.dec P).Lawful := ⟨fun _ _ => rfl⟩
 
 theorem Prim.boolStrict_lawful : Prim.boolStrict.Lawful := ⟨fun a _ => by cases a <;> decide⟩
